@@ -6,6 +6,7 @@ from lcmsa.core import AnalysisError, callee_name, is_term, kw, show, walk
 from lcmsa.alg import _chain_parts
 from lcmsa.formula import Universe, columns, conj, parse, show_formula
 from lcmsa.match import (
+    as_setop,
     all_frames,
     calls_in,
     calls_in_frame,
@@ -109,11 +110,16 @@ def build_universe(prog, ctx: Ctx | None = None):
             if _filters_are_non_next(prog) and _aux_uses_non_next(afr):
                 constraints.append(("or", ("not", ("col", "is_sparse")), ("not", ("col", "is_auxiliary"))))
                 notes.append("is_sparse => ~is_auxiliary (filters are ~is_next functions; their ancestors are not auxiliary)")
+    need(any("is_auxiliary =>" in n for n in notes), "universe: 'is_auxiliary => <state class>' not recognised (auxiliary = state_variables minus ancestors)")
+    need(any("is_sparse => ~is_auxiliary" in n for n in notes), "universe: 'is_sparse => ~is_auxiliary' not recognised")
     # --- guarded constraints (build-phase validation that raises)
     g = _stochastic_guard(prog)
-    if g is not None:
-        constraints.append(g[0])
-        notes.append(g[1])
+    # a universe with fewer constraints than the code guarantees contains classes that cannot occur; verdicts
+    # on such classes would be false alarms: if a constraint cannot be read, nothing is decided with the universe
+    need(ok, "universe: 'is_stochastic => is_state' not recognised in the definition of is_stochastic")
+    need(g is not None, "universe: the build-phase guard on stochastic variables (set difference of two selections) not recognised")
+    constraints.append(g[0])
+    notes.append(g[1])
     uni = Universe(independent, derived, constraints)
     uni.notes = notes
     return uni
@@ -145,8 +151,9 @@ def _stochastic_guard(prog):
     for conds, _exc, _node in fr.raises:
         for c in conds:
             # c is `invalid` = set(<query A>) - <set(query B)>
-            if c[0] == "binop" and c[1] == "-":
-                qa, qb = _find_query(c[2]), _find_query(c[3])
+            so = as_setop(c)
+            if so is not None and so[0] == "-":
+                qa, qb = _find_query(so[1]), _find_query(so[2])
                 if qa is not None and qb is not None:
                     fa, _ = effective_formula(qa, {})
                     fb, _ = effective_formula(qb, {})
@@ -454,7 +461,7 @@ def qa_siblings(ctx: Ctx):
        "filter mask and combination grid enumerate the same restricted variables")
     # 2. discrete problem's axis list == [sparse axis?] + space's dense grid selection
     dfr = prog.frame("lcm.discrete_problem._determine_dense_discrete_choice_axes")
-    info = choice_axes_info(dfr.ret)
+    info = choice_axes_info(dfr.ret, prog)
     axes = info["axes"]
     gfr = prog.frame("lcm.discrete_problem.get_solve_discrete_problem")
     call = calls_in_frame(prog, gfr, "lcm.discrete_problem._determine_dense_discrete_choice_axes")
@@ -508,7 +515,7 @@ def qa_siblings(ctx: Ctx):
     # 3. simulate: dense choice axes vs data space dense choices
     sfr = prog.frame("lcm.simulate.determine_discrete_dense_choice_axes")
     dsc = prog.frame("lcm.simulate.create_data_scs")
-    sinfo = choice_axes_info(sfr.ret)
+    sinfo = choice_axes_info(sfr.ret, prog)
     sim_axes = sinfo["axes"]
     ctx.ob("QA3:sim-axis-offset", sinfo["offset"] == 1, prog.where(sinfo["where"]),
            "simulate: dense choice axis k of the ccv array is at position k+1 (axis 0 = agents x sparse choices)"
@@ -612,7 +619,7 @@ def qa_value_axes(ctx: Ctx):
                else "the restricted-state axis is not listed first although spacemap puts it first", lhs=a)
     # choice axes of the discrete problem
     dfr = prog.frame("lcm.discrete_problem._determine_dense_discrete_choice_axes")
-    info = choice_axes_info(dfr.ret)
+    info = choice_axes_info(dfr.ret, prog)
     cq = selections(info["choice"])
     need(cq, "_determine_dense_discrete_choice_axes: choice set is not a query")
     f_c, _ = effective_formula(cq[0], {})
@@ -634,14 +641,16 @@ def qa_stochastic_sets(ctx: Ctx):
     dsv = vv = None
     for conds, _e, _n in fr.raises:
         for c in conds:
-            if c[0] == "binop" and c[1] == "-" and selections(c[3]) and dsv is None:
-                dsv = c[3]
+            so = as_setop(c)
+            if so is not None and so[0] == "-" and selections(so[2]) and dsv is None:
+                dsv = so[2]
     for lp in [l for lid, l in prog.loops.items() if l.func == q and "@" not in lid]:
         for v in lp.next.values():
             for s_ in walk(v):
-                if s_[0] == "binop" and s_[1] == "-" and callee_name(s_[2]) == "builtins.set" and vv is None \
-                        and any(callee_name(x) == "inspect.signature" for x in walk(s_[2])):
-                    vv = s_[3]
+                so = as_setop(s_)
+                if so is not None and so[0] == "-" and callee_name(so[1]) == "builtins.set" and vv is None \
+                        and any(callee_name(x) == "inspect.signature" for x in walk(so[1])):
+                    vv = so[2]
     need(dsv is not None and vv is not None, "validation sets not found")
     f1, _ = effective_formula(selections(dsv)[0], {})
     ok1 = uni.select(f1) == uni.select(parse("is_state & is_discrete"))
